@@ -4,7 +4,7 @@ From Coq Require Import List NArith Bool Arith Lia.
 From Verif Require Import lib.Quote model.ExSyntax model.ExLexer model.ExParser model.ExPrinter gen.GrammarE3
   model.ExScanner model.ExRefactor model.ExTemplate
   proofs.QuoteProofs proofs.ExPrintProofs proofs.ExLexerProofs proofs.ExRoundtrip proofs.ExTokok
-  proofs.ExScannerProofs proofs.ExRefactorProofs proofs.ExRender proofs.ExParserTotal proofs.ExGlue proofs.ExTreeWf.
+  proofs.ExScannerProofs proofs.ExRefactorProofs proofs.ExRender proofs.ExParserTotal proofs.ExGlue proofs.ExTreeWf proofs.ExTokName.
 Import ListNotations.
 Open Scope N_scope.
 
@@ -173,14 +173,15 @@ Qed.
 Theorem roundtrip_source_stmt : forall (lower : N -> N) (printable : N -> bool) inp ts t,
   printable 10 = false -> (forall c, lower (lower c) = lower c) -> valid_codepoints inp ->
   lex inp = LOk ts -> parse_tokens ts = POk t ->
-  names_ok lower t = true -> texts_ok t = true ->
+  refs_ok lower t = true -> texts_ok t = true ->
   exists ts', lex (print lower printable t) = LOk ts'
               /\ parse_tokens ts' = POk (norm lower t)
               /\ print lower printable (norm lower t) = print lower printable t.
 Proof.
   intros lower printable inp ts t Hnl Hid Hv HL HP Hn Ht.
   apply (roundtrip_stmt lower printable inp ts t Hnl Hid Hv HL HP).
-  apply glue_free_char; [exact Hnl|exact (parsed_shape inp ts t Hv HL HP)|exact Hn|exact Ht].
+  apply glue_free_char; [exact Hnl|exact (parsed_shape inp ts t Hv HL HP)| |exact Ht].
+  apply names_ok_split; [exact Hn|exact (parsed_src inp ts t Hv HL HP)].
 Qed.
 
 (* the two conditions hold on ordinary expressions (non-ASCII name, anonymous function, numeric lookups, every
@@ -196,7 +197,7 @@ Definition s_t : expr := Eval vm_compute in tree_or_null (parse_tokens s_ts).
 
 Example source_conditions_witness :
   lex s_inp = LOk s_ts /\ parse_tokens s_ts = POk s_t /\ s_t <> ENull
-  /\ names_ok s_lower s_t = true /\ texts_ok s_t = true
-  /\ names_ok s_lower r_t1 = false      (* the Cherokee name *)
+  /\ refs_ok s_lower s_t = true /\ texts_ok s_t = true
+  /\ refs_ok s_lower r_t1 = false       (* the Cherokee name *)
   /\ texts_ok r_t2 = false.             (* the value ending in a backslash *)
 Proof. repeat split; try (vm_compute; reflexivity). vm_compute. discriminate. Qed.
